@@ -38,8 +38,11 @@ func (c *dupImportChecker) WalkFile(f *ast.File) {
 		imports[pkg] = append(imports[pkg], importDcl)
 	}
 
-	for _, importList := range imports {
-		if len(importList) == 1 {
+	// Report in the order of the first occurrence in the file,
+	// not in the (random) map iteration order.
+	for _, importDcl := range f.Imports {
+		importList := imports[importDcl.Path.Value]
+		if len(importList) == 1 || importList[0] != importDcl {
 			continue
 		}
 		c.warn(importList)
